@@ -112,6 +112,7 @@ func xmlRepresentable(v interface{}, n *int) interface{} {
 
 func c19Run(c c19Case, o *hx.Obs) {
 	root := c.Module.Root()
+	schemaClasses(o, c.Module)
 	mm, err := loadDM(c.Module)
 	if err != nil {
 		o.Failf("harness|schema-rejected", "generated schema does not load: %v\n%s", err, c.Module.Yang())
